@@ -141,8 +141,13 @@ def sh_ggsw(rng, big):
     return key_part(rng, big, r, r)
 
 
+def sh_split(rng, big):
+    return {"cnt": rng.range(1, 5), "len": rng.choice([64, 128, 192, 16, 8, 200, 320144, 1000]) if not big else 64 * rng.range(1, 999)}
+
+
 # name -> (shape generator, back ends, runnable in the harness, minimum n)
 OPS = {
+    "split_mut": (sh_split, ALL, True, 2),
     "vec_znx_normalize": (sh_norm, ALL, True, 1),
     "vec_znx_lsh": (sh_leaf, ALL, True, 1),
     "vec_znx_rsh": (sh_leaf, ALL, True, 1),
@@ -206,6 +211,32 @@ OPS["glwe_normalize"] = (sh_glwe_norm, ALL, True, 2)
 USES_VMP = {o for o in OPS if o.startswith("vmp_") or any(w in o for w in ("keyswitch", "external_product", "automorphism", "trace"))}
 
 
+AUTO_FUSED = ["glwe_automorphism_add", "glwe_automorphism_sub", "glwe_automorphism_sub_negate"]
+# regression corpus: shapes found by searching the model, replayed on the implementation on every run
+CORPUS = []
+for _op in AUTO_FUSED:
+    # NTT120, cross radix, tiny converted input: big-normalize (48N) does not fit next to a_conv
+    CORPUS.append((_op, NTT, 16, dict(krin=1, krout=1, ksize=6, kb2k=13, dnum=1, dsize=1, rank=1, size=4, b2k=7, arank=1, asize=1, ab2k=7)))
+    CORPUS.append((_op + "_assign", NTT, 64, dict(krin=1, krout=1, ksize=6, kb2k=17, dnum=4, dsize=1, rank=1, size=1, b2k=13)))
+    # dsize = 3: res_dft is not zeroed, its last limb is accumulated into -> result depends on scratch contents
+    CORPUS.append((_op, ALL, 16, dict(krin=1, krout=1, ksize=7, kb2k=17, dnum=2, dsize=3, rank=1, size=4, b2k=17, arank=1, asize=6, ab2k=17)))
+    CORPUS.append((_op + "_assign", ALL, 16, dict(krin=1, krout=1, ksize=7, kb2k=17, dnum=2, dsize=3, rank=1, size=4, b2k=17)))
+CORPUS.append(("glwe_trace_assign", ALL, 16, dict(krin=1, krout=1, ksize=7, kb2k=17, dnum=2, dsize=3, rank=1, size=4, b2k=17, iters=2)))
+CORPUS.append(("glwe_trace", ALL, 16, dict(krin=1, krout=1, ksize=3, kb2k=17, dnum=2, dsize=1, rank=1, size=2, b2k=17, arank=1, asize=2, ab2k=17, iters=4)))
+CORPUS.append(("glwe_decrypt", NTT, 8, dict(size=1, b2k=17, rank=1)))
+CORPUS.append(("glwe_encrypt_pk", NTT, 64, dict(size=1, b2k=7, rank=2, pksize=1)))
+CORPUS.append(("lwe_encrypt_sk", ALL, 16, dict(size=4, b2k=17, nlwe=5)))      # the round-0 reproduction: 416-byte window
+CORPUS.append(("lwe_decrypt", ALL, 16, dict(size=6, b2k=13, nlwe=3)))
+CORPUS.append(("split_mut", ALL, 8, dict(cnt=2, len=320144)))                   # the bin-fhe per-thread size reported by slice C20
+
+
+def fail_key(op, n):
+    """stable key of an exact-window failure: per operation for realistic rings; one class for N < 8"""
+    if op == "split_mut":
+        return "split_mut:len%64!=0"
+    return f"{op}:exact-window" if n >= 8 else "ring-degree-below-8:exact-window"
+
+
 def kvs(d):
     return " ".join(f"{k}={v}" for k, v in d.items())
 
@@ -263,6 +294,11 @@ def run(ctx):
     n_big = 30 if quick else 400
     small_n = [2, 4, 8, 16, 32]
     cases = []      # dict(op, be, n, shape, mis, win(None|int), kind)
+    for (op, bes, n, shape) in CORPUS:
+        for be in bes:
+            for m in (0, 24):
+                cases.append(dict(op=op, be=be, n=n, shape=dict(shape), mis=m, win=None, kind="exact", corpus=True))
+            cases.append(dict(op=op, be=be, n=n, shape=dict(shape), mis=24, win="req", kind="req", corpus=True))
     for op, (gen, bes, runnable, nmin) in OPS.items():
         r = rng.fork()
         # formula equality on large shapes (no execution)
@@ -342,6 +378,7 @@ def run(ctx):
              "req_minus_8_fail": 0, "skipped": 0}
     by_op = {}
     failing_ops = {}       # key -> first witness
+    failing_ops_all = {}   # key -> operations
     outs = {}              # (op, be, n, shape) -> out hash, must not depend on misalignment
     classes = {}
     for k, (c, m, r) in enumerate(zip(cases, m2, h)):
@@ -425,7 +462,8 @@ def run(ctx):
                 if rrun == "take" and ev:
                     off, ln, rq = ev[-1]
                     genuine = align_off(c["mis"] + off) + rq > ln
-                fkey = f"{op}:exact-window" + (":n<8" if c["n"] < 8 else "")
+                fkey = fail_key(op, c["n"])
+                failing_ops_all.setdefault(fkey, set()).add(op)
                 if fkey not in failing_ops:
                     failing_ops[fkey] = {"case": hline(k, c), "implementation": hout[k], "model": mout[k],
                                          "tmp_bytes": int(r["tb"]), "required": int(m["req"]), "genuine_lack_of_space": genuine,
@@ -441,12 +479,13 @@ def run(ctx):
             ctx.samples.append({"case": hline(k, c), "implementation": hout[k], "model": mout[k]})
 
     for fkey, w in sorted(failing_ops.items()):
-        op = fkey.split(":")[0]
-        ctx.violation(f"{op} panics in a scratch window of exactly its tmp_bytes ({w['tmp_bytes']} < required {w['required']})",
+        who = ", ".join(sorted(failing_ops_all[fkey]))
+        w["operations"] = sorted(failing_ops_all[fkey])
+        ctx.violation(f"{who}: panics in a scratch window of exactly its tmp_bytes ({w['tmp_bytes']} < required {w['required']})",
                       {"witness": w}, True, key=fkey)
     ctx.cov["per_operation"] = by_op
     ctx.cov["stats"] = stats
-    ctx.cov["failing_keys"] = sorted(failing_ops.keys())
+    ctx.cov["failing_keys"] = {k: sorted(v) for k, v in sorted(failing_ops_all.items())}
     ctx.cov["classes_aligned_x_outcome"] = {f"aligned={a} run={b}": v for (a, b), v in sorted(classes.items())}
     ctx.cov["operations_modelled"] = len(OPS)
     ctx.log("stats", stats)
